@@ -76,7 +76,7 @@ def program_streams(ctx, micro_prefixes=None, want_random=True):
         micro = [(n, t) for n, t in micro if n.startswith(tuple(micro_prefixes))]
     off = rng.randrange(0, sz["micro_step"])
     for k, (name, text) in enumerate(micro):
-        if k % sz["micro_step"] == off % sz["micro_step"] or name.startswith(("addrmix", "appid", "retmix", "bottom")) or (name.startswith("unkop") and k % 2 == off % 2):   # small directed families run in full (unkop: every second)
+        if k % sz["micro_step"] == off % sz["micro_step"] or name.startswith(("addrmix", "appid", "retmix", "bottom", "feeunk")) or (name.startswith("unkop") and k % 2 == off % 2):   # small directed families run in full (unkop: every second)
             progs.append(("micro:" + name, text, {"stream": "micro"}))
     if want_random:
         for k in range(sz["random"]):
